@@ -12,13 +12,13 @@ open ExprModel.Spec
 variable {c : Cfg} {P : LProg} {ctx : Ctx}
 
 theorem sim_nil (m : Meta) : Sim c P ctx (.nil m) [li m.loc .nil_] := by
-  intro k st scs σ r σ' hcode hsc hev
+  intro k st scs σ r σ' hcode hsc hev hB
   rw [eval_nil, SM.pure_apply] at hev
   obtain ⟨rfl, rfl⟩ := Prod.mk.inj hev
   exact Runs.nil_ hcode (Reach.refl _ |>.to_ip (by ip_arith))
 
 theorem sim_bool (m : Meta) (b : Bool) : Sim c P ctx (.bool m b) [li m.loc (if b then .true_ else .false_)] := by
-  intro k st scs σ r σ' hcode hsc hev
+  intro k st scs σ r σ' hcode hsc hev hB
   rw [eval_bool, SM.pure_apply] at hev
   obtain ⟨rfl, rfl⟩ := Prod.mk.inj hev
   cases b
@@ -28,69 +28,73 @@ theorem sim_bool (m : Meta) (b : Bool) : Sim c P ctx (.bool m b) [li m.loc (if b
 /-- every literal that is a pushed constant -/
 theorem sim_push {n : Node} {l : Loc} {kk : Nat} {v : Val} (hk : P.consts[kk]? = some v)
     (hev : ∀ σ, eval (specOf c) ctx n σ = (.ok v, σ)) : Sim c P ctx n [li l .push kk] := by
-  intro k st scs σ r σ' hcode hsc he
+  intro k st scs σ r σ' hcode hsc he hB
   rw [hev] at he
   obtain ⟨rfl, rfl⟩ := Prod.mk.inj he
   exact Runs.push hcode hk (Reach.refl _ |>.to_ip (by ip_arith))
 
 theorem sim_unary_not {m : Meta} {op : String} {x : Node} {cx : List LInstr} (hx : Sim c P ctx x cx)
-    (hop : (op == "!" || op == "not") = true) (hbl : BlameOK c P (.unary m op x)) :
+    (hop : (op == "!" || op == "not") = true) :
     Sim c P ctx (.unary m op x) (cx ++ [li m.loc .not_]) := by
-  intro k st scs σ r σ' hcode hsc hev
-  have hev0 := hev
+  intro k st scs σ r σ' hcode hsc hev hB
   rw [eval_unary] at hev
+  rw [evalLoc_unary] at hB
   rcases SM.bind_cases hev with ⟨e, hxe, rfl⟩ | ⟨v, σ1, hxv, hrest⟩
-  · exact hx k st scs σ _ _ hcode.left hsc hxe
-  · refine Reach.runs (hx k st scs σ _ _ hcode.left hsc hxv) ?_
+  · exact hx k st scs σ _ _ hcode.left hsc hxe hB.left
+  · refine Reach.runs (hx k st scs σ _ _ hcode.left hsc hxv hB.left) ?_
+    have hb := (hB.right (evalLoc_of_ok hxv)).raised hrest
     simp only [hop, if_true, SM.lift_apply] at hrest
     obtain ⟨rfl, rfl⟩ := Prod.mk.inj hrest
-    exact (Runs.not_ hcode.right (hbl.of hev0)).to_ip (by ip_arith)
+    exact (Runs.not_ hcode.right hb).to_ip (by ip_arith)
 
 theorem sim_unary_plus {m : Meta} {op : String} {x : Node} {cx : List LInstr} (hx : Sim c P ctx x cx)
     (hop : (op == "+") = true) : Sim c P ctx (.unary m op x) cx := by
-  intro k st scs σ r σ' hcode hsc hev
+  intro k st scs σ r σ' hcode hsc hev hB
   have : op = "+" := by simpa using hop
   subst this
   rw [eval_unary] at hev
+  rw [evalLoc_unary] at hB
   rcases SM.bind_cases hev with ⟨e, hxe, rfl⟩ | ⟨v, σ1, hxv, hrest⟩
-  · exact hx k st scs σ _ _ hcode hsc hxe
+  · exact hx k st scs σ _ _ hcode hsc hxe hB.left
   · have h1 : ("+" == "!" || "+" == "not") = false := by decide
     have h2 : ("+" == "-") = false := by decide
     simp only [h1, h2, Bool.false_eq_true, if_false, BEq.rfl, if_true, SM.pure_apply] at hrest
     obtain ⟨rfl, rfl⟩ := Prod.mk.inj hrest
-    exact hx k st scs σ _ _ hcode hsc hxv
+    exact hx k st scs σ _ _ hcode hsc hxv hB.left
 
 theorem sim_unary_minus {m : Meta} {op : String} {x : Node} {cx : List LInstr} (hx : Sim c P ctx x cx)
-    (hop : (op == "-") = true) (hbl : BlameOK c P (.unary m op x)) :
+    (hop : (op == "-") = true) :
     Sim c P ctx (.unary m op x) (cx ++ [li m.loc .negate]) := by
-  intro k st scs σ r σ' hcode hsc hev
-  have hev0 := hev
+  intro k st scs σ r σ' hcode hsc hev hB
   have : op = "-" := by simpa using hop
   subst this
   rw [eval_unary] at hev
+  rw [evalLoc_unary] at hB
   rcases SM.bind_cases hev with ⟨e, hxe, rfl⟩ | ⟨v, σ1, hxv, hrest⟩
-  · exact hx k st scs σ _ _ hcode.left hsc hxe
-  · refine Reach.runs (hx k st scs σ _ _ hcode.left hsc hxv) ?_
+  · exact hx k st scs σ _ _ hcode.left hsc hxe hB.left
+  · refine Reach.runs (hx k st scs σ _ _ hcode.left hsc hxv hB.left) ?_
+    have hb := (hB.right (evalLoc_of_ok hxv)).raised hrest
     have h1 : ("-" == "!" || "-" == "not") = false := by decide
     simp only [h1, Bool.false_eq_true, if_false, BEq.rfl, if_true, SM.lift_apply] at hrest
     obtain ⟨rfl, rfl⟩ := Prod.mk.inj hrest
-    exact (Runs.negate hcode.right (hbl.of hev0)).to_ip (by ip_arith)
+    exact (Runs.negate hcode.right hb).to_ip (by ip_arith)
 
-theorem sim_ident_fetch {m : Meta} {name : String} {nilsafe : Bool} {kk : Nat} (hk : P.consts[kk]? = some (.str name))
-    (hbl : BlameOK c P (.ident m name nilsafe)) :
+theorem sim_ident_fetch {m : Meta} {name : String} {nilsafe : Bool} {kk : Nat} (hk : P.consts[kk]? = some (.str name)) :
     Sim c P ctx (.ident m name nilsafe) [li m.loc (if nilsafe then .fetchNilSafe else .fetch) kk] := by
-  intro k st scs σ r σ' hcode hsc hev
-  have hev0 := hev
-  rw [eval_ident, SM.lift_apply] at hev
+  intro k st scs σ r σ' hcode hsc hev hB
+  rw [eval_ident] at hev
+  rw [evalLoc_ident] at hB
+  have hb := hB.raised hev
+  rw [SM.lift_apply] at hev
   obtain ⟨rfl, rfl⟩ := Prod.mk.inj hev
   cases nilsafe
-  · exact (Runs.fetch hcode hk (hbl.of hev0)).to_ip (by ip_arith)
-  · exact (Runs.fetchNilSafe hcode hk (hbl.of hev0)).to_ip (by ip_arith)
+  · exact (Runs.fetch hcode hk hb).to_ip (by ip_arith)
+  · exact (Runs.fetchNilSafe hcode hk hb).to_ip (by ip_arith)
 
 theorem sim_ident_map {m : Meta} {name : String} {nilsafe : Bool} {kk : Nat} {kvs : List (String × Val)}
     (hk : P.consts[kk]? = some (.str name)) (henv : c.env = .map kvs) :
     Sim c P ctx (.ident m name nilsafe) [li m.loc .fetchMap kk] := by
-  intro k st scs σ r σ' hcode hsc hev
+  intro k st scs σ r σ' hcode hsc hev hB
   rw [eval_ident, SM.lift_apply] at hev
   have : fetchV (specOf c).env (.str name) nilsafe = .ok ((lookupKv name kvs).getD .nil) := by
     show fetchV c.env _ _ = _
@@ -100,51 +104,53 @@ theorem sim_ident_map {m : Meta} {name : String} {nilsafe : Bool} {kk : Nat} {kv
   exact Runs.fetchMap hcode hk henv (Reach.refl _ |>.to_ip (by ip_arith))
 
 theorem sim_prop {m : Meta} {x : Node} {name : String} {nilsafe : Bool} {cx : List LInstr} {kk : Nat}
-    (hx : Sim c P ctx x cx) (hk : P.consts[kk]? = some (.str name)) (hbl : BlameOK c P (.prop m x name nilsafe)) :
+    (hx : Sim c P ctx x cx) (hk : P.consts[kk]? = some (.str name)) :
     Sim c P ctx (.prop m x name nilsafe) (cx ++ [li m.loc (if nilsafe then .propertyNilSafe else .property) kk]) := by
-  intro k st scs σ r σ' hcode hsc hev
-  have hev0 := hev
+  intro k st scs σ r σ' hcode hsc hev hB
   rw [eval_prop] at hev
+  rw [evalLoc_prop] at hB
   rcases SM.bind_cases hev with ⟨e, hxe, rfl⟩ | ⟨v, σ1, hxv, hrest⟩
-  · exact hx k st scs σ _ _ hcode.left hsc hxe
-  · refine Reach.runs (hx k st scs σ _ _ hcode.left hsc hxv) ?_
+  · exact hx k st scs σ _ _ hcode.left hsc hxe hB.left
+  · refine Reach.runs (hx k st scs σ _ _ hcode.left hsc hxv hB.left) ?_
+    have hb := (hB.right (evalLoc_of_ok hxv)).raised hrest
     rw [SM.lift_apply] at hrest
     obtain ⟨rfl, rfl⟩ := Prod.mk.inj hrest
     cases nilsafe
-    · exact (Runs.property hcode.right hk (hbl.of hev0)).to_ip (by ip_arith)
-    · exact (Runs.propertyNilSafe hcode.right hk (hbl.of hev0)).to_ip (by ip_arith)
+    · exact (Runs.property hcode.right hk hb).to_ip (by ip_arith)
+    · exact (Runs.propertyNilSafe hcode.right hk hb).to_ip (by ip_arith)
 
-theorem sim_index {m : Meta} {x i : Node} {cx ci : List LInstr} (hx : Sim c P ctx x cx) (hi : Sim c P ctx i ci)
-    (hbl : BlameOK c P (.index m x i)) :
+theorem sim_index {m : Meta} {x i : Node} {cx ci : List LInstr} (hx : Sim c P ctx x cx) (hi : Sim c P ctx i ci) :
     Sim c P ctx (.index m x i) (cx ++ ci ++ [li m.loc .index]) := by
-  intro k st scs σ r σ' hcode hsc hev
-  have hev0 := hev
+  intro k st scs σ r σ' hcode hsc hev hB
   rw [eval_index] at hev
+  rw [evalLoc_index] at hB
   rcases SM.bind_cases hev with ⟨e, hxe, rfl⟩ | ⟨a, σ1, hxv, hrest⟩
-  · exact hx k st scs σ _ _ hcode.left.left hsc hxe
-  · refine Reach.runs (hx k st scs σ _ _ hcode.left.left hsc hxv) ?_
+  · exact hx k st scs σ _ _ hcode.left.left hsc hxe hB.left
+  · refine Reach.runs (hx k st scs σ _ _ hcode.left.left hsc hxv hB.left) ?_
+    have hB1 := hB.right (evalLoc_of_ok hxv)
     rcases SM.bind_cases hrest with ⟨e, hie, rfl⟩ | ⟨b, σ2, hiv, hrest2⟩
-    · exact hi _ _ scs σ1 _ _ hcode.left.right hsc hie
-    · refine Reach.runs (hi _ _ scs σ1 _ _ hcode.left.right hsc hiv) ?_
+    · exact hi _ _ scs σ1 _ _ hcode.left.right hsc hie hB1.left
+    · refine Reach.runs (hi _ _ scs σ1 _ _ hcode.left.right hsc hiv hB1.left) ?_
+      have hb := (hB1.right (evalLoc_of_ok hiv)).raised hrest2
       rw [SM.lift_apply] at hrest2
       obtain ⟨rfl, rfl⟩ := Prod.mk.inj hrest2
-      exact ((Runs.index (hcode.right.cast (by ip_arith)) (hbl.of hev0)).to_ip (by ip_arith))
+      exact ((Runs.index (hcode.right.cast (by ip_arith)) hb).to_ip (by ip_arith))
 
-theorem sim_len {m : Meta} {a : Node} {ca : List LInstr} (ha : Sim c P ctx a ca)
-    (hbl : BlameOK c P (.builtin m "len" [a])) :
+theorem sim_len {m : Meta} {a : Node} {ca : List LInstr} (ha : Sim c P ctx a ca) :
     Sim c P ctx (.builtin m "len" [a]) (ca ++ [li m.loc .len, li m.loc .rot, li m.loc .pop]) := by
-  intro k st scs σ r σ' hcode hsc hev
-  have hev0 := hev
+  intro k st scs σ r σ' hcode hsc hev hB
   rw [eval_len] at hev
+  rw [evalLoc_len] at hB
   rcases SM.bind_cases hev with ⟨e, hxe, rfl⟩ | ⟨v, σ1, hxv, hrest⟩
-  · exact ha k st scs σ _ _ hcode.left hsc hxe
-  · refine Reach.runs (ha k st scs σ _ _ hcode.left hsc hxv) ?_
+  · exact ha k st scs σ _ _ hcode.left hsc hxe hB.left
+  · refine Reach.runs (ha k st scs σ _ _ hcode.left hsc hxv hB.left) ?_
     have hc := hcode.right
+    have hb0 := (hB.right (evalLoc_of_ok hxv)).raised hrest
     have hb : RBlame P m.loc (lengthV v) := by
       intro e he
       rw [SM.bind_apply, SM.lift_apply, he] at hrest
       obtain ⟨rfl, rfl⟩ := Prod.mk.inj hrest
-      exact hbl _ _ _ _ hev0
+      exact hb0 _ rfl
     refine Runs.andThen (Runs.len hc hb) ?_ ?_
     · intro lv hlv
       cases hl : lengthV v with
@@ -164,8 +170,9 @@ theorem sim_len {m : Meta} {a : Node} {ca : List LInstr} (ha : Sim c P ctx a ca)
         rfl
 
 theorem sim_closure {m : Meta} {x : Node} {cx : List LInstr} (hx : Sim c P ctx x cx) : Sim c P ctx (.closure m x) cx := by
-  intro k st scs σ r σ' hcode hsc hev
+  intro k st scs σ r σ' hcode hsc hev hB
   rw [eval_closure] at hev
-  exact hx k st scs σ _ _ hcode hsc hev
+  rw [evalLoc_closure] at hB
+  exact hx k st scs σ _ _ hcode hsc hev hB
 
 end ExprModel.Refine
